@@ -5,6 +5,7 @@ use crate::spec::*;
 use crate::values::*;
 
 fn field_attr(recvs: &[Recv], scope: &str, f: &Field, k: usize) -> String {
+    let hn = f.rust.trim_start_matches("r#");
     let mut opts: Vec<String> = vec![];
     if let Some(n) = &f.rename {
         opts.push(format!("rename = \"{n}\""));
@@ -12,7 +13,7 @@ fn field_attr(recvs: &[Recv], scope: &str, f: &Field, k: usize) -> String {
     match f.default {
         Def::None => {}
         Def::Trait => opts.push("default".into()),
-        Def::Func => opts.push(if k % 2 == 0 { format!("default = \"fdef_{}_{}\"", scope, f.rust) } else { format!("default = fdef_{}_{}", scope, f.rust) }),
+        Def::Func => opts.push(if k % 2 == 0 { format!("default = \"fdef_{}_{}\"", scope, hn) } else { format!("default = fdef_{}_{}", scope, hn) }),
     }
     if f.skip {
         opts.push(if k % 3 == 0 { "skip = true".into() } else { "skip".into() });
@@ -25,7 +26,7 @@ fn field_attr(recvs: &[Recv], scope: &str, f: &Field, k: usize) -> String {
     }
     match f.with {
         With::None => {}
-        With::Path => opts.push(format!("with = with_{}_{}", scope, f.rust)),
+        With::Path => opts.push(format!("with = with_{}_{}", scope, hn)),
         With::Closure => {
             if let Ty::Sc(sc) = f.ty {
                 opts.push(format!("with = |m: &syn::Meta| <{} as ::darling::FromMeta>::from_meta(m).map(|v| {})", rust_ty(recvs, &f.ty), with_body(sc)));
@@ -34,8 +35,8 @@ fn field_attr(recvs: &[Recv], scope: &str, f: &Field, k: usize) -> String {
     }
     match f.post {
         Post::None => {}
-        Post::Map => opts.push(if k % 2 == 0 { format!("map = \"map_{}_{}\"", scope, f.rust) } else { format!("map = map_{}_{}", scope, f.rust) }),
-        Post::AndThen => opts.push(format!("and_then = andthen_{}_{}", scope, f.rust)),
+        Post::Map => opts.push(if k % 2 == 0 { format!("map = \"map_{}_{}\"", scope, hn) } else { format!("map = map_{}_{}", scope, hn) }),
+        Post::AndThen => opts.push(format!("and_then = andthen_{}_{}", scope, hn)),
     }
     if opts.is_empty() {
         return String::new();
@@ -49,26 +50,27 @@ fn field_attr(recvs: &[Recv], scope: &str, f: &Field, k: usize) -> String {
 }
 
 fn field_helpers(recvs: &[Recv], scope: &str, f: &Field, k: usize, out: &mut String) {
+    let hn = f.rust.trim_start_matches("r#");
     let elem_ty = rust_ty(recvs, &f.ty);
     let full_ty = field_full_ty(recvs, f);
     if f.default == Def::Func {
-        out.push_str(&format!("fn fdef_{}_{}() -> {full_ty} {{ {} }}\n", scope, f.rust, field_sentinel_expr(recvs, f, Tag::FieldDefault, k)));
+        out.push_str(&format!("fn fdef_{}_{}() -> {full_ty} {{ {} }}\n", scope, hn, field_sentinel_expr(recvs, f, Tag::FieldDefault, k)));
     }
     if let Ty::Sc(sc) = f.ty {
         if f.with == With::Path {
             out.push_str(&format!(
                 "fn with_{}_{}(m: &syn::Meta) -> ::darling::Result<{elem_ty}> {{ <{elem_ty} as ::darling::FromMeta>::from_meta(m).map(|v| {}) }}\n",
                 scope,
-                f.rust,
+                hn,
                 with_body(sc)
             ));
         }
         match f.post {
-            Post::Map => out.push_str(&format!("fn map_{}_{}(v: {elem_ty}) -> {elem_ty} {{ {} }}\n", scope, f.rust, map_body(sc))),
+            Post::Map => out.push_str(&format!("fn map_{}_{}(v: {elem_ty}) -> {elem_ty} {{ {} }}\n", scope, hn, map_body(sc))),
             Post::AndThen => out.push_str(&format!(
                 "fn andthen_{}_{}(v: {elem_ty}) -> ::darling::Result<{elem_ty}> {{ if {} {{ Err(::darling::Error::custom(\"rejected by and_then\")) }} else {{ Ok({}) }} }}\n",
                 scope,
-                f.rust,
+                hn,
                 and_then_reject_cond(sc),
                 map_body(sc)
             )),
@@ -76,7 +78,7 @@ fn field_helpers(recvs: &[Recv], scope: &str, f: &Field, k: usize, out: &mut Str
         }
     } else if f.flatten && f.post == Post::Map {
         // a transform on the flatten member: wraps the nested receiver's anchor, visible in the dump
-        out.push_str(&format!("fn map_{}_{}(v: {full_ty}) -> {full_ty} {{ flatten_mark(v) }}\n", scope, f.rust));
+        out.push_str(&format!("fn map_{}_{}(v: {full_ty}) -> {full_ty} {{ flatten_mark(v) }}\n", scope, hn));
     }
 }
 
@@ -189,11 +191,16 @@ pub fn emit_recv(recvs: &[Recv], r: &Recv, out: &mut String) {
             for (k, f) in fields.iter().enumerate() {
                 out.push_str(&format!("    {}pub {}: {},\n", field_attr(recvs, &r.id.to_string(), f, k), f.rust, field_full_ty(recvs, f)));
             }
+            let (gargs, gextra) = generic_parts(r);
+            for (a, n, t) in &gextra {
+                out.push_str(&format!("    {a}pub {n}: {t},\n"));
+            }
             out.push_str("}\n");
             for (k, f) in fields.iter().enumerate() {
                 field_helpers(recvs, &r.id.to_string(), f, k, out);
             }
             // Dump
+            if g.is_empty() {
             out.push_str(&format!("impl ::vf_support::Dump for {name} {{ fn dump(&self) -> ::vf_support::Value {{ let mut m = ::vf_support::serde_json_map(); "));
             for f in fields {
                 out.push_str(&format!("m.insert(String::from(\"{0}\"), ::vf_support::Dump::dump(&self.{0})); ", f.rust));
@@ -206,6 +213,7 @@ pub fn emit_recv(recvs: &[Recv], r: &Recv, out: &mut String) {
                 out.push_str("m.insert(String::from(\"@attrs\"), ::vf_support::Dump::dump(&self.attrs)); ");
             }
             out.push_str(&format!("let mut o = ::vf_support::serde_json_map(); o.insert(String::from(\"{name}\"), ::vf_support::Value::Object(m)); ::vf_support::Value::Object(o) }} }}\n"));
+            }
             // constructors with tagged values (only meaningful for receivers without magic fields)
             let can_construct = r.magic.is_empty() && r.attrs_field.is_none();
             if can_construct {
@@ -218,11 +226,14 @@ pub fn emit_recv(recvs: &[Recv], r: &Recv, out: &mut String) {
                         };
                         s.push_str(&format!("{}: {e}, ", f.rust));
                     }
+                    for (_, n, _) in &gextra {
+                        s.push_str(&format!("{n}: ::core::default::Default::default(), "));
+                    }
                     s.push('}');
                     s
                 };
                 let dflt = if r.cdefault == Def::Trait { ctor(Some(Tag::ContainerDefault)) } else { ctor(None) };
-                out.push_str(&format!("impl ::core::default::Default for {name} {{ fn default() -> Self {{ {dflt} }} }}\n"));
+                out.push_str(&format!("impl{g} ::core::default::Default for {name}{gargs} {{ fn default() -> Self {{ {dflt} }} }}\n"));
                 if r.cdefault == Def::Func {
                     out.push_str(&format!("fn cdef_{}() -> {name} {{ {} }}\n", r.id, ctor(Some(Tag::ContainerDefault))));
                 }
@@ -327,6 +338,9 @@ pub fn emit_recv(recvs: &[Recv], r: &Recv, out: &mut String) {
 
 /// the dispatch arm(s) of one receiver
 pub fn emit_dispatch(r: &Recv, out: &mut String) {
+    if !r.generics.is_empty() {
+        return;
+    }
     let name = r.name();
     let id = r.id;
     match r.tr {
@@ -372,6 +386,39 @@ fn data_passthrough<V: ::darling::FromVariant, F: ::darling::FromField>(d: &syn:
 trait FlattenMark { fn mark(self) -> Self; }
 fn flatten_mark<T: FlattenMark>(v: T) -> T { v.mark() }
 "#;
+
+/// The same programs for a crate whose only dependency is darling: `syn` is reached through
+/// darling's re-export, nothing of the harness is linked, the crate only has to compile.
+pub fn emit_shard_darling_only(recvs: &[Recv], ids: &[usize]) -> String {
+    let full = emit_shard(recvs, ids);
+    let mut out = String::new();
+    for line in full.lines() {
+        if line.starts_with("impl ::vf_support::Dump") {
+            continue;
+        }
+        if line.starts_with("fn dispatch(") {
+            break;
+        }
+        let mut l = String::new();
+        // qualify every bare `syn::` path
+        let b = line.as_bytes();
+        let mut i = 0;
+        while i < line.len() {
+            if line[i..].starts_with("syn::") && (i == 0 || !(b[i - 1].is_ascii_alphanumeric() || b[i - 1] == b'_' || b[i - 1] == b':')) {
+                l.push_str("::darling::export::syn::");
+                i += 5;
+            } else {
+                let ch = line[i..].chars().next().unwrap();
+                l.push(ch);
+                i += ch.len_utf8();
+            }
+        }
+        out.push_str(&l);
+        out.push('\n');
+    }
+    out.push_str("fn main() {}\n");
+    out
+}
 
 /// Source of one shard: receivers `ids` plus everything they reference.
 pub fn emit_shard(recvs: &[Recv], ids: &[usize]) -> String {
@@ -427,7 +474,7 @@ pub fn emit_shard(recvs: &[Recv], ids: &[usize]) -> String {
         emit_recv(recvs, &recvs[*id], &mut out);
         // FlattenMark for struct receivers that can be flatten members: mark the anchor (or nothing)
         let r = &recvs[*id];
-        if r.tr == Trait::Meta && !r.is_enum() {
+        if r.tr == Trait::Meta && !r.is_enum() && r.generics.is_empty() {
             let stmt = match anchor_field(r) {
                 Some(a) => match r.fields()[a].ty {
                     Ty::Sc(Sc::I64) => format!("self.{} += 40_000_000;", r.fields()[a].rust),
